@@ -9,7 +9,8 @@
    a script found by the request's X-Verif-Spec header (the harness module does the same).  Requests are read
    with a reader for the request grammar the generators use (CRLF lines, METHOD SP target SP HTTP/1.x, token
    ": " value fields); anything else is answered 400 as ReadRequest does for the malformed kinds generated.
-   Request bodies are below maxPostHandlerReadBytes (256 KiB).  Definitions only. *)
+   Request bodies are below maxPostHandlerReadBytes (256 KiB).  Definitions only.
+   After the /repo fixes: no "100 Continue" sent => close after the reply; request body not drainable => close. *)
 From Coq Require Import String Ascii.
 From Coq Require Import List ZArith Bool.
 From Bfe Require Import lib.Val lib.Bytes model.Http1Resp.
@@ -71,14 +72,46 @@ Definition read_request (s : bytes) : read_result :=
     end
   end.
 
-(* the stream after the request body; None: the chunked body is not well formed (not generated) *)
-Definition after_body (fr : rframing) (rest : bytes) : option bytes :=
+(* ---------- the chunked request body as bfe_http/chunked.go reads it ----------
+   readLine: up to LF (a bare LF is accepted), trailing space / tab / CR / LF trimmed; parseHexUint: 1..16 hex
+   digits, nothing else (no chunk extensions); chunk data must be followed by CRLF; after the last chunk
+   body.readTrailer wants CRLF (trailer fields are not generated: anything else counts as an error here).
+   Size lines stay far below the 4096-byte line limit.  Result: the stream after the body, None on any error. *)
+Fixpoint split_lf (s : bytes) : option (bytes * bytes) :=
+  match s with
+  | [] => None
+  | x :: r => if x =? 10 then Some ([], r)
+              else match split_lf r with Some (l, t) => Some (x :: l, t) | None => None end
+  end.
+Definition is_ws4 (b : Z) : bool := (b =? 32) || (b =? 9) || (b =? 13) || (b =? 10).
+(* result: (the stream position the reader has reached, the body ended cleanly) *)
+Fixpoint req_chunks (fuel : nat) (s : bytes) {struct fuel} : bytes * bool :=
+  match fuel with
+  | O => ([], false)
+  | S f =>
+    match split_lf s with
+    | None => ([], false)                                   (* no line end before the end of the stream *)
+    | Some (l, r) =>
+      match parse_hex_line (trim_right is_ws4 l) with
+      | None => (r, false)                                  (* bad size line: the line has been consumed *)
+      | Some n =>
+        if n =? 0 then match r with 13 :: 10 :: r' => (r', true) | _ => (r, false) end
+        else if blen r <? n + 2 then ([], false)            (* the stream ends inside the chunk *)
+        else match skipn (Z.to_nat n) r with
+             | 13 :: 10 :: r2 => req_chunks f r2
+             | _ => (skipn (Z.to_nat n + 2) r, false)       (* chunk data not followed by CRLF *)
+             end
+      end
+    end
+  end.
+
+(* where reading / draining the request body ends, and whether it ended cleanly; not clean: the stream ends
+   inside the body, or its chunked framing is corrupt (then the position only matters to the code before the fix,
+   which went on reading requests from there; for a failed trailer it is approximate) *)
+Definition body_end (fr : rframing) (rest : bytes) : bytes * bool :=
   match fr with
-  | RLen n => Some (skipn (Z.to_nat n) rest)
-  | RChunked => match strict_chunks (S (length rest)) rest [] with
-                | Some (_, t, _) => Some t
-                | None => None
-                end
+  | RLen n => if blen rest <? n then ([], false) else (skipn (Z.to_nat n) rest, true)
+  | RChunked => req_chunks (S (length rest)) rest
   end.
 
 (* ---------- handler scripts ---------- *)
@@ -97,15 +130,16 @@ Variable fix_expect : bool.
 Definition respond' := respond_gen sniff now fix_expect body_allowed_status.
 
 (* one request: bytes written, stop after it *)
-Definition serve_one (scripts : list script) (r : req) : option (bytes * bool) :=
+(* body_err: the request body cannot be read / drained cleanly to its end (see body_end) *)
+Definition serve_one (scripts : list script) (r : req) (body_err : bool) : option (bytes * bool) :=
   let q := {| q_minor := r_minor r; q_head := bytes_eqb (r_method r) s_head_m; q_conn := get_ci s_conn (r_fields r) |} in
   let cl_nonzero := match r_framing r with RLen n => negb (n =? 0) | RChunked => true end in
   let expects := has_token (get_ci s_expect (r_fields r)) s_100c in
   if expects && negb cl_nonzero then
     (* w.Header().Set("Connection","close"); WriteHeader(400); finishRequest; break *)
-    let '(out, _, _) := respond' q (false, false, false) false 400 [(s_conn, s_close)] [] false in Some (out, true)
+    let '(out, _, _) := respond' q (false, false, false, false) false 400 [(s_conn, s_close)] [] false in Some (out, true)
   else if negb expects && negb (is_empty (get_ci s_expect (r_fields r))) then
-    let '(out, _, _) := respond' q (false, false, false) false 417 [(s_conn, s_close)] [] false in Some (out, true)
+    let '(out, _, _) := respond' q (false, false, false, false) false 417 [(s_conn, s_close)] [] false in Some (out, true)
   else
     match find_script (get_ci s_spec (r_fields r)) scripts with
     | None => None
@@ -114,7 +148,7 @@ Definition serve_one (scripts : list script) (r : req) : option (bytes * bool) :
       let body_read := negb (h_read sc =? 0) || (h_src sc =? 1) in
       let wrote_continue := is_expecter && body_read in
       let pre := if wrote_continue then s_continue else [] in
-      let rb := (cl_nonzero, is_expecter, wrote_continue) in
+      let rb := (cl_nonzero, is_expecter, wrote_continue, body_err) in
       let echo := (s_xreq, get_ci s_vid (r_fields r)) in
       if h_src sc =? 2 then Some (pre, true)
       else if h_src sc =? 3 then
@@ -127,7 +161,8 @@ Definition serve_one (scripts : list script) (r : req) : option (bytes * bool) :
         Some (pre ++ out, close)
     end.
 
-(* conn.serve: the request loop.  None: outside the model (unknown script key / malformed chunked body / fuel) *)
+(* conn.serve: the request loop.  None: outside the model (unknown script key / fuel).  A response that does not
+   close the connection implies (after the fix) that the body was drained cleanly to its end. *)
 Fixpoint serve (fuel : nat) (scripts : list script) (s : bytes) : option bytes :=
   match fuel with
   | O => None
@@ -136,14 +171,11 @@ Fixpoint serve (fuel : nat) (scripts : list script) (s : bytes) : option bytes :
     | REof => Some []
     | RBad => Some s_bad_request
     | ROk r rest =>
-      match serve_one scripts r with
+      match serve_one scripts r (negb (snd (body_end (r_framing r) rest))) with
       | None => None
       | Some (out, stop) =>
         if stop then Some out
-        else match after_body (r_framing r) rest with
-             | None => None
-             | Some rest' => match serve f scripts rest' with Some o => Some (out ++ o) | None => None end
-             end
+        else match serve f scripts (fst (body_end (r_framing r) rest)) with Some o => Some (out ++ o) | None => None end
       end
     end
   end.
